@@ -4,8 +4,17 @@
 //! `h3_quinn::{SendStream<Bytes>, RecvStream}` halves of one stream and is driven only through the
 //! `h3::quic` traits; the peer (P) is raw Quinn.  Every case runs on a fresh single-threaded tokio
 //! runtime with a global timeout.  One output token per op (see `tools/props/c17.py`).
+//!
+//! Second part (coverage-directed): streams opened THROUGH the adapter's `OpenStreams` objects
+//! (`Connection` itself, `Connection::opener()`, `OpenStreams::clone()`) under stream limits, the
+//! unsplit `BidiStream` (`split=0`, op `split`), the unframed write path `poll_send`, the accept
+//! paths after the connection failed, `OpenStreams::close(code, reason)`, `is_0rtt`, the datagram
+//! handlers of `h3_quinn::datagram`, and three special connection set-ups (`hs=`) that make real Quinn
+//! raise `ConnectionClosed`, `Reset` and `ZeroRttRejected`.
 use crate::util::*;
-use bytes::Bytes;
+use bytes::{Buf, Bytes};
+use h3::quic::SendStreamUnframed as _;
+use h3_datagram::quic_traits::{DatagramConnectionExt, RecvDatagram as _, SendDatagram as _, SendDatagramErrorIncoming};
 use h3::proto::frame::Frame;
 use h3::proto::stream::StreamType;
 use h3::proto::varint::VarInt as H3VarInt;
@@ -26,6 +35,7 @@ use tokio::sync::{mpsc, oneshot};
 
 type ASend = h3_quinn::SendStream<Bytes>;
 type ARecv = h3_quinn::RecvStream;
+type ABidi = h3_quinn::BidiStream<Bytes>;
 
 const HASH_P: u64 = 4294967291;
 const HASH_M: u64 = 16777619;
@@ -83,10 +93,39 @@ struct Cfg {
     open: bool,     // adapter side opens the stream (else the raw peer opens it)
     skip: u64,      // streams of the same kind opened (and left unused) before the one under test
     idle: u64,      // max_idle_timeout in ms, 0 = none
+    split: bool,    // kind=bi: split the stream under test at once (default) or keep the unsplit BidiStream
+    mb: Option<u64>, // the PEER's max_concurrent_bidi_streams = how many bidi streams the adapter side may open
+    mu: Option<u64>, // the PEER's max_concurrent_uni_streams
+    dga: bool,      // datagrams enabled (receive buffer) on the adapter side
+    dgp: bool,      // ... on the peer side
+    hs: Hs,         // special connection set-up
+}
+
+#[derive(Clone, Copy, PartialEq)]
+enum Hs {
+    Normal,
+    /// adapter = server, connection taken with `into_0rtt()` (0.5-RTT) before the handshake completes;
+    /// the client does not trust the certificate and aborts: Quinn raises `ConnectionClosed`
+    Rej,
+    /// adapter = client; the peer endpoint lives on its own runtime; op `pkill` destroys it without a
+    /// close and binds a fresh endpoint with the same reset key to the same port: `Reset`
+    Kill,
+    /// adapter = client, second connection taken with `into_0rtt()`; `Z0`: the server remembers the
+    /// session (0-RTT accepted), `Z0R`: it does not (`ZeroRttRejected`)
+    Z0,
+    Z0R,
+    /// as `Z0R`, but the second server presents a certificate the client does not trust: the adapter
+    /// side's own Quinn aborts the handshake, `TransportError`
+    Z0T,
+    /// as `Z0R`, but the second server speaks no QUIC version the client offers: `VersionMismatch`
+    Z0V,
 }
 
 fn parse_cfg(s: &str) -> Option<Cfg> {
-    let mut c = Cfg { sw: 0, cw: 0, tw: 0, client: true, kind: Kind::Bi, open: true, skip: 0, idle: 0 };
+    let mut c = Cfg {
+        sw: 0, cw: 0, tw: 0, client: true, kind: Kind::Bi, open: true, skip: 0, idle: 0,
+        split: true, mb: None, mu: None, dga: true, dgp: true, hs: Hs::Normal,
+    };
     for kv in s.split(',') {
         let (k, v) = kv.split_once('=')?;
         match k {
@@ -98,17 +137,52 @@ fn parse_cfg(s: &str) -> Option<Cfg> {
             "dir" => c.open = match v { "open" => true, "acc" => false, _ => return None },
             "skip" => c.skip = v.parse().ok()?,
             "idle" => c.idle = v.parse().ok()?,
+            "split" => c.split = match v { "1" => true, "0" => false, _ => return None },
+            "mb" => c.mb = Some(v.parse().ok()?),
+            "mu" => c.mu = Some(v.parse().ok()?),
+            "dga" => c.dga = match v { "1" => true, "0" => false, _ => return None },
+            "dgp" => c.dgp = match v { "1" => true, "0" => false, _ => return None },
+            "hs" => c.hs = match v {
+                "rej" => Hs::Rej, "kill" => Hs::Kill, "z0" => Hs::Z0, "z0r" => Hs::Z0R, "z0t" => Hs::Z0T, "z0v" => Hs::Z0V,
+                _ => return None,
+            },
             _ => return None,
         }
     }
     if c.skip > 64 {
         return None;
     }
+    if !c.split && c.kind != Kind::Bi {
+        return None;
+    }
+    if c.mb.is_some_and(|x| x > 1000) || c.mu.is_some_and(|x| x > 1000) {
+        return None;
+    }
+    // the special set-ups fix who is the client
+    match c.hs {
+        Hs::Normal => {}
+        Hs::Rej => if c.client { return None },
+        Hs::Kill => if !c.client { return None },
+        // the stream under test must be opened by the adapter side before the handshake is over
+        Hs::Z0 | Hs::Z0R | Hs::Z0T | Hs::Z0V => if !c.client || !c.open { return None },
+    }
     Some(c)
 }
 
-fn transport(c: &Cfg) -> Arc<TransportConfig> {
+/// `peer`: the configuration of the raw Quinn side (stream limits granted to the adapter side).
+fn transport(c: &Cfg, peer: bool) -> Arc<TransportConfig> {
     let mut t = TransportConfig::default();
+    if peer {
+        if let Some(n) = c.mb {
+            t.max_concurrent_bidi_streams(VarInt::from_u64(n).unwrap());
+        }
+        if let Some(n) = c.mu {
+            t.max_concurrent_uni_streams(VarInt::from_u64(n).unwrap());
+        }
+    }
+    if !(if peer { c.dgp } else { c.dga }) {
+        t.datagram_receive_buffer_size(None);
+    }
     if c.sw > 0 {
         t.stream_receive_window(VarInt::from_u64(c.sw).unwrap());
     }
@@ -119,6 +193,10 @@ fn transport(c: &Cfg) -> Arc<TransportConfig> {
         t.send_window(c.tw);
     }
     t.initial_rtt(Duration::from_millis(10));
+    if c.hs == Hs::Kill {
+        // no packet of Quinn's own making while the peer is being replaced
+        t.mtu_discovery_config(None);
+    }
     // ask the peer to acknowledge every packet at once: with a tiny send window every byte waits for
     // an ACK, and Quinn's default 25 ms ACK delay would make such cases needlessly slow
     let mut af = quinn::AckFrequencyConfig::default();
@@ -132,40 +210,234 @@ fn transport(c: &Cfg) -> Arc<TransportConfig> {
     Arc::new(t)
 }
 
-async fn connect(c: &Cfg) -> (quinn::Endpoint, quinn::Endpoint, quinn::Connection, quinn::Connection) {
-    let (cert, key) = certs();
-    let tc = transport(c);
+/// A second certificate: `hs=rej` the client trusts only this one (the server presents the first);
+/// `hs=z0t` the second server presents this one (the client trusts only the first).
+fn certs2() -> &'static (CertificateDer<'static>, PrivateKeyDer<'static>) {
+    static C: OnceLock<(CertificateDer<'static>, PrivateKeyDer<'static>)> = OnceLock::new();
+    C.get_or_init(|| {
+        let cert = rcgen::generate_simple_self_signed(vec!["localhost".into()]).unwrap();
+        (cert.cert.into(), PrivateKeyDer::Pkcs8(cert.signing_key.serialize_der().into()))
+    })
+}
+
+fn server_crypto(early: bool, second_cert: bool) -> Arc<QuicServerConfig> {
+    let (cert, key) = if second_cert { certs2() } else { certs() };
     let prov = Arc::new(rustls::crypto::ring::default_provider());
-    let mut crypto = rustls::ServerConfig::builder_with_provider(prov.clone())
+    let mut crypto = rustls::ServerConfig::builder_with_provider(prov)
         .with_protocol_versions(&[&rustls::version::TLS13])
         .unwrap()
         .with_no_client_auth()
         .with_single_cert(vec![cert.clone()], key.clone_key())
         .unwrap();
     crypto.alpn_protocols = vec![b"h3".to_vec()];
-    let mut sc = quinn::ServerConfig::with_crypto(Arc::new(QuicServerConfig::try_from(crypto).unwrap()));
-    sc.transport = tc.clone();
-    let any: SocketAddr = "127.0.0.1:0".parse().unwrap();
-    let server = quinn::Endpoint::server(sc, any).unwrap();
-    let addr = server.local_addr().unwrap();
+    if early {
+        crypto.max_early_data_size = u32::MAX;
+    }
+    Arc::new(QuicServerConfig::try_from(crypto).unwrap())
+}
 
+fn client_crypto(trust_server: bool, early: bool) -> Arc<QuicClientConfig> {
+    let (cert, _) = certs();
+    let prov = Arc::new(rustls::crypto::ring::default_provider());
     let mut roots = rustls::RootCertStore::empty();
-    roots.add(cert.clone()).unwrap();
+    roots.add(if trust_server { cert.clone() } else { certs2().0.clone() }).unwrap();
     let mut ccrypto = rustls::ClientConfig::builder_with_provider(prov)
         .with_protocol_versions(&[&rustls::version::TLS13])
         .unwrap()
         .with_root_certificates(roots)
         .with_no_client_auth();
     ccrypto.alpn_protocols = vec![b"h3".to_vec()];
-    let mut cc = quinn::ClientConfig::new(Arc::new(QuicClientConfig::try_from(ccrypto).unwrap()));
+    if early {
+        ccrypto.enable_early_data = true;
+    }
+    Arc::new(QuicClientConfig::try_from(ccrypto).unwrap())
+}
+
+/// Reset key and connection-id generator shared by the endpoint that is killed (`hs=kill`) and the
+/// one bound to its port afterwards, so that the latter answers with a stateless reset the adapter
+/// side's Quinn recognises.  (A keyed checksum, not a MAC: nobody attacks this loopback test.)
+struct TestHmac;
+impl quinn::crypto::HmacKey for TestHmac {
+    fn sign(&self, data: &[u8], out: &mut [u8]) {
+        let mut h: u64 = 0x9e37_79b9_7f4a_7c15;
+        for (i, o) in out.iter_mut().enumerate() {
+            for b in data {
+                h = (h ^ (*b as u64 + i as u64)).wrapping_mul(0x100_0000_01b3).rotate_left(9);
+            }
+            *o = (h >> 24) as u8;
+        }
+    }
+    fn signature_len(&self) -> usize {
+        32
+    }
+    fn verify(&self, data: &[u8], signature: &[u8]) -> Result<(), quinn::crypto::CryptoError> {
+        let mut x = vec![0u8; 32];
+        self.sign(data, &mut x);
+        if x[..] == *signature { Ok(()) } else { Err(quinn::crypto::CryptoError) }
+    }
+}
+struct TestCids;
+impl quinn::ConnectionIdGenerator for TestCids {
+    fn generate_cid(&mut self) -> quinn::ConnectionId {
+        let mut b = [0u8; 8];
+        for x in b.iter_mut() {
+            *x = fastrand::u8(..);
+        }
+        quinn::ConnectionId::new(&b)
+    }
+    fn cid_len(&self) -> usize {
+        8
+    }
+    fn cid_lifetime(&self) -> Option<Duration> {
+        None
+    }
+}
+fn kill_endpoint_config() -> quinn::EndpointConfig {
+    let mut ec = quinn::EndpointConfig::new(Arc::new(TestHmac));
+    ec.cid_generator(|| Box::new(TestCids));
+    ec
+}
+
+/// `hs=kill`: how to destroy the peer's endpoint
+struct Killer {
+    kill: oneshot::Sender<()>,
+    dead: oneshot::Receiver<()>,
+    addr: SocketAddr,
+}
+
+struct Link {
+    eps: Vec<quinn::Endpoint>,
+    aconn: quinn::Connection,
+    /// the raw peer's connection; `hs=rej` has none, the 0-RTT set-ups get it once the handshake is over
+    pconn: Option<quinn::Connection>,
+    pconn_later: Option<oneshot::Receiver<quinn::Connection>>,
+    accepted: Option<quinn::ZeroRttAccepted>,
+    killer: Option<Killer>,
+}
+
+async fn connect(c: &Cfg) -> Option<Link> {
+    let any: SocketAddr = "127.0.0.1:0".parse().unwrap();
+    let (ta, tp) = (transport(c, false), transport(c, true));
+    let (ts, tc) = if c.client { (tp, ta) } else { (ta, tp) };
+    let early = matches!(c.hs, Hs::Z0 | Hs::Z0R | Hs::Z0T | Hs::Z0V);
+    let mut sc = quinn::ServerConfig::with_crypto(server_crypto(early, false));
+    sc.transport = ts.clone();
+    let mut cc = quinn::ClientConfig::new(client_crypto(c.hs != Hs::Rej, early));
     cc.transport_config(tc);
     let mut client = quinn::Endpoint::client(any).unwrap();
     client.set_default_client_config(cc);
-    let connecting = client.connect(addr, "localhost").unwrap();
-    let (cconn, sconn) = tokio::join!(async { connecting.await.unwrap() }, async {
-        server.accept().await.unwrap().await.unwrap()
-    });
-    (client, server, cconn, sconn)
+    match c.hs {
+        Hs::Normal => {
+            let server = quinn::Endpoint::server(sc, any).unwrap();
+            let addr = server.local_addr().unwrap();
+            let connecting = client.connect(addr, "localhost").unwrap();
+            let (cconn, sconn) = tokio::join!(async { connecting.await.unwrap() }, async {
+                server.accept().await.unwrap().await.unwrap()
+            });
+            let (aconn, pconn) = if c.client { (cconn, sconn) } else { (sconn, cconn) };
+            Some(Link { eps: vec![client, server], aconn, pconn: Some(pconn), pconn_later: None, accepted: None, killer: None })
+        }
+        Hs::Rej => {
+            let server = quinn::Endpoint::server(sc, any).unwrap();
+            let addr = server.local_addr().unwrap();
+            let connecting = client.connect(addr, "localhost").unwrap();
+            // the client will refuse the certificate; keep its endpoint alive meanwhile
+            tokio::spawn(async move {
+                let _ = connecting.await;
+                std::future::pending::<()>().await;
+            });
+            let incoming = tokio::time::timeout(OP_TIMEOUT, server.accept()).await.ok()??;
+            let connecting = incoming.accept().ok()?;
+            let (aconn, _) = connecting.into_0rtt().ok()?;
+            Some(Link { eps: vec![client, server], aconn, pconn: None, pconn_later: None, accepted: None, killer: None })
+        }
+        Hs::Kill => {
+            // the peer's endpoint is driven by its own runtime on its own thread, so that it can be
+            // destroyed without a single further packet being sent
+            let (addr_tx, addr_rx) = oneshot::channel();
+            let (conn_tx, conn_rx) = oneshot::channel();
+            let (kill_tx, kill_rx) = oneshot::channel::<()>();
+            let (dead_tx, dead_rx) = oneshot::channel::<()>();
+            std::thread::spawn(move || {
+                let rt2 = tokio::runtime::Builder::new_current_thread().enable_all().build().unwrap();
+                rt2.block_on(async move {
+                    let sock = std::net::UdpSocket::bind(any).unwrap();
+                    let ep = quinn::Endpoint::new(kill_endpoint_config(), Some(sc), sock, Arc::new(quinn::TokioRuntime)).unwrap();
+                    let _ = addr_tx.send(ep.local_addr().unwrap());
+                    if let Some(inc) = ep.accept().await {
+                        if let Ok(conn) = inc.await {
+                            let _ = conn_tx.send(conn);
+                        }
+                    }
+                    let _ = kill_rx.await;
+                });
+                drop(rt2);
+                let _ = dead_tx.send(());
+            });
+            let addr = addr_rx.await.ok()?;
+            let connecting = client.connect(addr, "localhost").unwrap();
+            let cconn = tokio::time::timeout(OP_TIMEOUT, connecting).await.ok()?.ok()?;
+            let sconn = tokio::time::timeout(OP_TIMEOUT, conn_rx).await.ok()?.ok()?;
+            Some(Link {
+                eps: vec![client],
+                aconn: cconn,
+                pconn: Some(sconn),
+                pconn_later: None,
+                accepted: None,
+                killer: Some(Killer { kill: kill_tx, dead: dead_rx, addr }),
+            })
+        }
+        Hs::Z0 | Hs::Z0R | Hs::Z0T | Hs::Z0V => {
+            // first connection: the client learns a session ticket and the server's transport parameters
+            let server = quinn::Endpoint::server(sc, any).unwrap();
+            let addr = server.local_addr().unwrap();
+            let connecting = client.connect(addr, "localhost").unwrap();
+            let (c1, s1) = tokio::join!(async { connecting.await.unwrap() }, async {
+                server.accept().await.unwrap().await.unwrap()
+            });
+            // one round trip after the handshake, so that the tickets (sent before this stream) are in
+            let mut hello = s1.open_uni().await.ok()?;
+            hello.write_all(&[1]).await.ok()?;
+            let _ = hello.finish();
+            let mut r = tokio::time::timeout(OP_TIMEOUT, c1.accept_uni()).await.ok()?.ok()?;
+            let _ = tokio::time::timeout(OP_TIMEOUT, r.read_to_end(16)).await.ok()?;
+            c1.close(VarInt::from_u32(0), b"");
+            let _ = tokio::time::timeout(OP_TIMEOUT, s1.closed()).await;
+            drop((c1, s1));
+            // second connection, to the same server (it remembers the session) or to another one (it does not)
+            let mut eps = vec![server.clone()];
+            let (server2, addr2) = if c.hs == Hs::Z0 {
+                (server, addr)
+            } else {
+                let mut sc2 = quinn::ServerConfig::with_crypto(server_crypto(true, c.hs == Hs::Z0T));
+                sc2.transport = ts;
+                let mut ec = quinn::EndpointConfig::default();
+                if c.hs == Hs::Z0V {
+                    ec.supported_versions(vec![0x0a1a_2a3a]);
+                }
+                let sock = std::net::UdpSocket::bind(any).ok()?;
+                let s2 = quinn::Endpoint::new(ec, Some(sc2), sock, Arc::new(quinn::TokioRuntime)).ok()?;
+                let a2 = s2.local_addr().unwrap();
+                eps.push(s2.clone());
+                (s2, a2)
+            };
+            let connecting = client.connect(addr2, "localhost").unwrap();
+            let (aconn, accepted) = connecting.into_0rtt().ok()?;
+            let (ptx, prx) = oneshot::channel();
+            tokio::spawn(async move {
+                if let Some(inc) = server2.accept().await {
+                    if let Ok(conn) = inc.await {
+                        let _ = ptx.send(conn);
+                    }
+                }
+                std::future::pending::<()>().await;
+            });
+            eps.push(client);
+            // a handshake that fails leaves no peer connection to wait for
+            let later = if matches!(c.hs, Hs::Z0T | Hs::Z0V) { None } else { Some(prx) };
+            Some(Link { eps, aconn, pconn: None, pconn_later: later, accepted: Some(accepted), killer: None })
+        }
+    }
 }
 
 // ---------------------------------------------------------------- canonical error names
@@ -324,7 +596,7 @@ async fn peer_reader(mut recv: quinn::RecvStream, mut rx: mpsc::UnboundedReceive
 }
 
 struct Peer {
-    conn: quinn::Connection,
+    conn: Option<quinn::Connection>,
     w: mpsc::UnboundedSender<WCmd>,
     urgent: mpsc::UnboundedSender<u64>,
     r: mpsc::UnboundedSender<RCmd>,
@@ -366,41 +638,115 @@ fn data_res(r: Poll<Result<Option<Bytes>, StreamErrorIncoming>>, h: &mut Hash) -
 
 const OP_TIMEOUT: Duration = Duration::from_secs(5);
 
+type PTasks = Arc<std::sync::Mutex<Vec<tokio::task::AbortHandle>>>;
+
+/// Spawn a task of the raw peer; `pkill` aborts them all (they hold handles of the peer's connection).
+fn spawn_peer<F: std::future::Future<Output = ()> + 'static + Send>(pt: &PTasks, f: F) {
+    let h = tokio::spawn(f);
+    pt.lock().unwrap().push(h.abort_handle());
+}
+
+enum Opened {
+    Bi(ABidi),
+    Uni(ASend),
+}
+
+fn ids_of_bidi(b: &ABidi) -> String {
+    let (s, r) = (b.send_id().into_inner(), b.recv_id().into_inner());
+    if s == r { format!("{}", s) } else { format!("{}/{}", s, r) }
+}
+
+fn open_res<T>(tag: &str, r: Poll<Result<T, StreamErrorIncoming>>, id: impl Fn(&T) -> String) -> (String, Option<T>) {
+    match r {
+        Poll::Pending => (format!("{}=pending", tag), None),
+        Poll::Ready(Err(e)) => (format!("{}=err:{}", tag, stream_err(&e)), None),
+        Poll::Ready(Ok(x)) => (format!("{}={}", tag, id(&x)), Some(x)),
+    }
+}
+
+fn dgram_err(e: &SendDatagramErrorIncoming) -> String {
+    match e {
+        SendDatagramErrorIncoming::NotAvailable => "not-available".into(),
+        SendDatagramErrorIncoming::TooLarge => "too-large".into(),
+        SendDatagramErrorIncoming::ConnectionError(c) => format!("err:{}", conn_err(c)),
+    }
+}
+
 async fn scenario(cfg: Cfg, ops: Vec<String>) -> String {
-    let (cep, sep, cconn, sconn) = connect(&cfg).await;
-    let (aconn, pconn) = if cfg.client { (cconn, sconn) } else { (sconn, cconn) };
+    let Some(link) = connect(&cfg).await else { return "setup-failed".into() };
+    let Link { mut eps, aconn, pconn, pconn_later, accepted, mut killer } = link;
     let mut a = h3_quinn::Connection::new(aconn);
     let mut out: Vec<String> = Vec::new();
+    let ptasks: PTasks = Arc::new(std::sync::Mutex::new(Vec::new()));
 
     // ---- open the stream under test
     let (wtx, wrx) = mpsc::unbounded_channel();
     let (utx, urx) = mpsc::unbounded_channel();
     let (rtx, rrx) = mpsc::unbounded_channel();
-    let mut peer = Peer { conn: pconn.clone(), w: wtx, urgent: utx, r: rtx, result: None };
+    let mut abidi: Option<ABidi> = None;
     let mut asend: Option<ASend> = None;
     let mut arecv: Option<ARecv> = None;
     let mut skipped: Vec<Box<dyn std::any::Any>> = Vec::new();
-    if cfg.open {
-        for _ in 0..cfg.skip {
+    // resolves when the peer has accepted the stream under test (the adapter side opened it)
+    let mut primary_ready: Option<oneshot::Receiver<()>> = None;
+    let mut zacc: Option<bool> = None;
+    let has_stream = cfg.hs != Hs::Rej;
+    let mut pconn = pconn;
+    if has_stream && cfg.open {
+        // No `.await` below yields before the streams exist: with a 0-RTT connection they are 0-RTT streams.
+        let first = tokio::time::timeout(OP_TIMEOUT, async {
+            for _ in 0..cfg.skip {
+                match cfg.kind {
+                    Kind::Bi => skipped.push(Box::new(
+                        poll_fn(|cx| h3::quic::OpenStreams::<Bytes>::poll_open_bidi(&mut a, cx)).await.ok()?,
+                    )),
+                    Kind::Uni => skipped.push(Box::new(
+                        poll_fn(|cx| h3::quic::OpenStreams::<Bytes>::poll_open_send(&mut a, cx)).await.ok()?,
+                    )),
+                }
+            }
             match cfg.kind {
-                Kind::Bi => skipped.push(Box::new(
-                    poll_fn(|cx| h3::quic::OpenStreams::<Bytes>::poll_open_bidi(&mut a, cx)).await.unwrap(),
-                )),
-                Kind::Uni => skipped.push(Box::new(
-                    poll_fn(|cx| h3::quic::OpenStreams::<Bytes>::poll_open_send(&mut a, cx)).await.unwrap(),
-                )),
+                Kind::Bi => {
+                    let bi = poll_fn(|cx| h3::quic::OpenStreams::<Bytes>::poll_open_bidi(&mut a, cx)).await.ok()?;
+                    if cfg.split {
+                        let (s, r) = bi.split();
+                        asend = Some(s);
+                        arecv = Some(r);
+                    } else {
+                        abidi = Some(bi);
+                    }
+                }
+                Kind::Uni => {
+                    asend = Some(poll_fn(|cx| h3::quic::OpenStreams::<Bytes>::poll_open_send(&mut a, cx)).await.ok()?);
+                }
+            }
+            Some(())
+        })
+        .await;
+        if first != Ok(Some(())) {
+            return "setup-failed".into();
+        }
+        if let Some(acc) = accepted {
+            match tokio::time::timeout(OP_TIMEOUT, acc).await {
+                Ok(b) => zacc = Some(b),
+                Err(_) => return "setup-failed".into(),
             }
         }
-        match cfg.kind {
-            Kind::Bi => {
-                let bi = poll_fn(|cx| h3::quic::OpenStreams::<Bytes>::poll_open_bidi(&mut a, cx)).await.unwrap();
-                let (s, r) = bi.split();
-                asend = Some(s);
-                arecv = Some(r);
-                let pc = pconn.clone();
+        if let Some(rx) = pconn_later {
+            match tokio::time::timeout(OP_TIMEOUT, rx).await {
+                Ok(Ok(c)) => pconn = Some(c),
+                _ => return "setup-failed".into(),
+            }
+        }
+        let skip = cfg.skip;
+        let (ptx, prx) = oneshot::channel();
+        primary_ready = Some(prx);
+        let pt = ptasks.clone();
+        match (pconn.clone(), cfg.kind) {
+            (None, _) => drop((wrx, urx, rrx, ptx)),
+            (Some(pc), Kind::Bi) => {
                 // the peer sees the stream once the adapter side has written to it
-                let skip = cfg.skip;
-                tokio::spawn(async move {
+                spawn_peer(&ptasks, async move {
                     // streams with lower ids that were never used are accepted first; park them
                     let mut parked = Vec::new();
                     for _ in 0..skip {
@@ -408,75 +754,151 @@ async fn scenario(cfg: Cfg, ops: Vec<String>) -> String {
                         parked.push(x);
                     }
                     let Ok((s, r)) = pc.accept_bi().await else { return };
-                    tokio::spawn(peer_writer(s, wrx, urx));
-                    tokio::spawn(peer_reader(r, rrx));
+                    spawn_peer(&pt, peer_writer(s, wrx, urx));
+                    spawn_peer(&pt, peer_reader(r, rrx));
+                    let _ = ptx.send(());
                     std::future::pending::<()>().await;
                     drop(parked);
                 });
             }
-            Kind::Uni => {
-                let s = poll_fn(|cx| h3::quic::OpenStreams::<Bytes>::poll_open_send(&mut a, cx)).await.unwrap();
-                asend = Some(s);
-                let pc = pconn.clone();
+            (Some(pc), Kind::Uni) => {
                 drop((wrx, urx));
-                let skip = cfg.skip;
-                tokio::spawn(async move {
+                spawn_peer(&ptasks, async move {
                     let mut parked = Vec::new();
                     for _ in 0..skip {
                         let Ok(x) = pc.accept_uni().await else { return };
                         parked.push(x);
                     }
                     let Ok(r) = pc.accept_uni().await else { return };
-                    tokio::spawn(peer_reader(r, rrx));
+                    spawn_peer(&pt, peer_reader(r, rrx));
+                    let _ = ptx.send(());
                     std::future::pending::<()>().await;
                     drop(parked);
                 });
             }
         }
-    } else {
+    } else if has_stream {
         // the raw peer opens; it announces the stream with one hello byte which is read away here
-        match cfg.kind {
-            Kind::Bi => {
-                for _ in 0..cfg.skip {
-                    skipped.push(Box::new(pconn.open_bi().await.unwrap()));
+        let pc = pconn.clone().unwrap();
+        let mut r0: Option<ARecv> = None;
+        let setup = tokio::time::timeout(OP_TIMEOUT, async {
+            match cfg.kind {
+                Kind::Bi => {
+                    for _ in 0..cfg.skip {
+                        skipped.push(Box::new(pc.open_bi().await.ok()?));
+                    }
+                    let (mut s, r) = pc.open_bi().await.ok()?;
+                    s.write_all(&[0xaa]).await.ok()?;
+                    spawn_peer(&ptasks, peer_writer(s, wrx, urx));
+                    spawn_peer(&ptasks, peer_reader(r, rrx));
+                    for _ in 0..cfg.skip {
+                        skipped.push(Box::new(
+                            poll_fn(|cx| h3::quic::Connection::<Bytes>::poll_accept_bidi(&mut a, cx)).await.ok()?,
+                        ));
+                    }
+                    let bi = poll_fn(|cx| h3::quic::Connection::<Bytes>::poll_accept_bidi(&mut a, cx)).await.ok()?;
+                    if cfg.split {
+                        let (s, r) = bi.split();
+                        asend = Some(s);
+                        r0 = Some(r);
+                    } else {
+                        abidi = Some(bi);
+                    }
                 }
-                let (mut s, r) = pconn.open_bi().await.unwrap();
-                s.write_all(&[0xaa]).await.unwrap();
-                tokio::spawn(peer_writer(s, wrx, urx));
-                tokio::spawn(peer_reader(r, rrx));
-                for _ in 0..cfg.skip {
-                    skipped.push(Box::new(
-                        poll_fn(|cx| h3::quic::Connection::<Bytes>::poll_accept_bidi(&mut a, cx)).await.unwrap(),
-                    ));
+                Kind::Uni => {
+                    for _ in 0..cfg.skip {
+                        skipped.push(Box::new(pc.open_uni().await.ok()?));
+                    }
+                    let mut s = pc.open_uni().await.ok()?;
+                    s.write_all(&[0xaa]).await.ok()?;
+                    spawn_peer(&ptasks, peer_writer(s, wrx, urx));
+                    drop(rrx);
+                    for _ in 0..cfg.skip {
+                        skipped.push(Box::new(
+                            poll_fn(|cx| h3::quic::Connection::<Bytes>::poll_accept_recv(&mut a, cx)).await.ok()?,
+                        ));
+                    }
+                    r0 = Some(poll_fn(|cx| h3::quic::Connection::<Bytes>::poll_accept_recv(&mut a, cx)).await.ok()?);
                 }
-                let bi = poll_fn(|cx| h3::quic::Connection::<Bytes>::poll_accept_bidi(&mut a, cx)).await.unwrap();
-                let (s, r) = bi.split();
-                asend = Some(s);
-                arecv = Some(r);
             }
-            Kind::Uni => {
-                for _ in 0..cfg.skip {
-                    skipped.push(Box::new(pconn.open_uni().await.unwrap()));
-                }
-                let mut s = pconn.open_uni().await.unwrap();
-                s.write_all(&[0xaa]).await.unwrap();
-                tokio::spawn(peer_writer(s, wrx, urx));
-                drop(rrx);
-                for _ in 0..cfg.skip {
-                    skipped.push(Box::new(
-                        poll_fn(|cx| h3::quic::Connection::<Bytes>::poll_accept_recv(&mut a, cx)).await.unwrap(),
-                    ));
-                }
-                let r = poll_fn(|cx| h3::quic::Connection::<Bytes>::poll_accept_recv(&mut a, cx)).await.unwrap();
-                arecv = Some(r);
+            // read the hello byte away (exactly one byte was sent, so the first chunk is that byte)
+            let hello = match (abidi.as_mut(), r0.as_mut()) {
+                (Some(b), _) => poll_fn(|cx| b.poll_data(cx)).await,
+                (None, Some(r)) => poll_fn(|cx| r.poll_data(cx)).await,
+                _ => return None,
+            };
+            match hello {
+                Ok(Some(b)) if b[..] == [0xaa] => Some(()),
+                _ => None,
             }
+        })
+        .await;
+        if setup != Ok(Some(())) {
+            return "setup-failed".into();
         }
-        // read the hello byte away (exactly one byte was sent, so the first chunk is that byte)
-        let r = arecv.as_mut().unwrap();
-        match poll_fn(|cx| r.poll_data(cx)).await {
-            Ok(Some(b)) if b[..] == [0xaa] => {}
-            _ => return "setup-failed".into(),
-        }
+        arecv = r0;
+    }
+    let mut peer = Peer { conn: pconn, w: wtx, urgent: utx, r: rtx, result: None };
+
+    // streams opened / accepted through the adapter by the ops below, in order
+    let mut o_opener: Option<h3_quinn::OpenStreams> = None;
+    let mut k_opener: Option<h3_quinn::OpenStreams> = None;
+    let mut opened: Vec<(Opened, bool)> = Vec::new();
+    let mut taken: Vec<Box<dyn std::any::Any>> = Vec::new();
+    let mut pextra: Vec<Box<dyn std::any::Any + Send>> = Vec::new();
+    let mut ubuf: Option<bytes::buf::Chain<Bytes, Bytes>> = None;
+    let mut dsend: Option<h3_quinn::datagram::SendDatagramHandler> = None;
+    let mut drecv: Option<h3_quinn::datagram::RecvDatagramHandler> = None;
+
+    // the send / receive side of the stream under test: the unsplit BidiStream or a half
+    macro_rules! with_send {
+        ($s:ident => $e:expr) => {
+            if let Some($s) = abidi.as_mut() {
+                $e
+            } else if let Some($s) = asend.as_mut() {
+                $e
+            } else {
+                return "bad-op".into();
+            }
+        };
+    }
+    macro_rules! with_recv {
+        ($r:ident => $e:expr) => {
+            if let Some($r) = abidi.as_mut() {
+                $e
+            } else if let Some($r) = arecv.as_mut() {
+                $e
+            } else {
+                return "bad-op".into();
+            }
+        };
+    }
+    // `c` the connection itself, `o` its `opener()`, `k` a clone of that opener
+    macro_rules! with_opener {
+        ($w:expr, $x:ident => $e:expr) => {
+            match $w {
+                Some(&"c") => {
+                    let $x = &mut a;
+                    $e
+                }
+                Some(&"o") | Some(&"k") => {
+                    if o_opener.is_none() {
+                        o_opener = Some(h3::quic::Connection::<Bytes>::opener(&a));
+                    }
+                    if $w == Some(&"o") {
+                        let $x = o_opener.as_mut().unwrap();
+                        $e
+                    } else {
+                        if k_opener.is_none() {
+                            k_opener = Some(o_opener.as_ref().unwrap().clone());
+                        }
+                        let $x = k_opener.as_mut().unwrap();
+                        $e
+                    }
+                }
+                _ => return "bad-op".into(),
+            }
+        };
     }
 
     // ---- the ops
@@ -487,11 +909,11 @@ async fn scenario(cfg: Cfg, ops: Vec<String>) -> String {
         let tok: String = match p[0] {
             // ---------------- adapter, send half
             "sd" | "w" => {
-                let (Some(s), Some(f), Some(n), Some(seed)) = (asend.as_mut(), p.get(1), num(2), num(3)) else {
+                let (Some(f), Some(n), Some(seed)) = (p.get(1), num(2), num(3)) else {
                     return "bad-op".into();
                 };
                 let Some(wb) = write_buf(f, n as usize, seed) else { return "bad-op".into() };
-                match s.send_data(wb) {
+                with_send!(s => match s.send_data(wb) {
                     Err(StreamErrorIncoming::ConnectionErrorIncoming {
                         connection_error: ConnectionErrorIncoming::InternalError(_),
                     }) => format!("{}=refused", p[0]),
@@ -501,70 +923,107 @@ async fn scenario(cfg: Cfg, ops: Vec<String>) -> String {
                         Err(_) => "w=timeout".into(),
                         Ok(r) => format!("w={}", poll_res(Poll::Ready(r))),
                     },
-                }
+                })
             }
             "pr1" => {
-                let Some(s) = asend.as_mut() else { return "bad-op".into() };
-                let r = poll_fn(|cx| Poll::Ready(s.poll_ready(cx))).await;
+                let r = with_send!(s => poll_fn(|cx| Poll::Ready(s.poll_ready(cx))).await);
                 format!("pr1={}", poll_res(r))
             }
-            "pr" => {
-                let Some(s) = asend.as_mut() else { return "bad-op".into() };
-                match tokio::time::timeout(OP_TIMEOUT, poll_fn(|cx| s.poll_ready(cx))).await {
-                    Err(_) => "pr=timeout".into(),
-                    Ok(r) => format!("pr={}", poll_res(Poll::Ready(r))),
-                }
-            }
+            "pr" => with_send!(s => match tokio::time::timeout(OP_TIMEOUT, poll_fn(|cx| s.poll_ready(cx))).await {
+                Err(_) => "pr=timeout".into(),
+                Ok(r) => format!("pr={}", poll_res(Poll::Ready(r))),
+            }),
             "fin" => {
-                let Some(s) = asend.as_mut() else { return "bad-op".into() };
-                let r = poll_fn(|cx| Poll::Ready(s.poll_finish(cx))).await;
+                let r = with_send!(s => poll_fn(|cx| Poll::Ready(s.poll_finish(cx))).await);
                 format!("fin={}", poll_res(r))
             }
             "rst" => {
-                let (Some(s), Some(c)) = (asend.as_mut(), num(1)) else { return "bad-op".into() };
-                s.reset(c);
+                let Some(c) = num(1) else { return "bad-op".into() };
+                with_send!(s => s.reset(c));
                 "rst".into()
             }
-            "sid" => {
-                let Some(s) = asend.as_ref() else { return "bad-op".into() };
-                match catch_unwind(AssertUnwindSafe(|| s.send_id())) {
-                    Ok(id) => format!("sid={}", id.into_inner()),
-                    Err(_) => "sid=panic".into(),
+            "sid" => with_send!(s => match catch_unwind(AssertUnwindSafe(|| s.send_id())) {
+                Ok(id) => format!("sid={}", id.into_inner()),
+                Err(_) => "sid=panic".into(),
+            }),
+            // ---------------- adapter, unframed writes (`SendStreamUnframed::poll_send`)
+            "ub" => {
+                // the caller's buffer: n bytes, handed over as two chunks when a cut is given
+                let (Some(n), Some(seed)) = (num(1), num(2)) else { return "bad-op".into() };
+                let cut = num(3).unwrap_or(0).min(n) as usize;
+                let b = payload(n as usize, seed);
+                ubuf = Some(b.slice(..cut).chain(b.slice(cut..)));
+                "ub".into()
+            }
+            "ps1" | "ps" | "psall" => {
+                let Some(buf) = ubuf.as_mut() else { return "bad-op".into() };
+                let all = p[0] == "psall";
+                let once = p[0] == "ps1";
+                let mut res: Option<String> = None;
+                let t0 = tokio::time::Instant::now();
+                loop {
+                    if all && !buf.has_remaining() {
+                        break;
+                    }
+                    let before = buf.remaining();
+                    let r = with_send!(s => {
+                        let f = poll_fn(|cx| match catch_unwind(AssertUnwindSafe(|| s.poll_send(cx, buf))) {
+                            Ok(Poll::Pending) if once => Poll::Ready(Ok(None)),
+                            Ok(Poll::Pending) => Poll::Pending,
+                            Ok(Poll::Ready(x)) => Poll::Ready(Ok(Some(x))),
+                            Err(_) => Poll::Ready(Err(())),
+                        });
+                        tokio::time::timeout(OP_TIMEOUT.saturating_sub(t0.elapsed()), f).await
+                    });
+                    match r {
+                        Err(_) => res = Some("timeout".into()),
+                        Ok(Err(())) => res = Some("panic".into()),
+                        Ok(Ok(None)) => res = Some("pending".into()),
+                        Ok(Ok(Some(Err(StreamErrorIncoming::ConnectionErrorIncoming {
+                            connection_error: ConnectionErrorIncoming::InternalError(_),
+                        })))) => res = Some("refused".into()),
+                        Ok(Ok(Some(Err(e)))) => res = Some(format!("err:{}", stream_err(&e))),
+                        Ok(Ok(Some(Ok(k)))) => {
+                            // the Buf must have been advanced by exactly what was reported
+                            if before - buf.remaining() != k {
+                                res = Some(format!("misadvanced:{}:{}", k, before - buf.remaining()));
+                            } else if !all {
+                                res = Some(format!("{}", k));
+                            }
+                        }
+                    }
+                    if res.is_some() || !all {
+                        break;
+                    }
                 }
+                format!("{}={}/{}", p[0], res.unwrap_or_else(|| "ok".into()), buf.remaining())
             }
             // ---------------- adapter, receive half
-            "rid" => {
-                let Some(r) = arecv.as_ref() else { return "bad-op".into() };
-                match catch_unwind(AssertUnwindSafe(|| r.recv_id())) {
-                    Ok(id) => format!("rid={}", id.into_inner()),
-                    Err(_) => "rid=panic".into(),
-                }
-            }
+            "rid" => with_recv!(r => match catch_unwind(AssertUnwindSafe(|| r.recv_id())) {
+                Ok(id) => format!("rid={}", id.into_inner()),
+                Err(_) => "rid=panic".into(),
+            }),
             "pd1" => {
-                let Some(r) = arecv.as_mut() else { return "bad-op".into() };
-                let x = poll_fn(|cx| Poll::Ready(r.poll_data(cx))).await;
+                let x = with_recv!(r => poll_fn(|cx| Poll::Ready(r.poll_data(cx))).await);
                 format!("pd1={}", data_res(x, &mut rhash))
             }
             "pdc" => {
                 // a read that is started and then cancelled (the future is dropped)
-                let Some(r) = arecv.as_mut() else { return "bad-op".into() };
                 let ms = num(1).unwrap_or(1);
-                let fut = poll_fn(|cx| r.poll_data(cx));
-                match tokio::time::timeout(Duration::from_millis(ms), fut).await {
-                    Err(_) => "pdc=cancelled".into(),
-                    Ok(x) => format!("pdc={}", data_res(Poll::Ready(x), &mut rhash)),
-                }
+                with_recv!(r => {
+                    let fut = poll_fn(|cx| r.poll_data(cx));
+                    match tokio::time::timeout(Duration::from_millis(ms), fut).await {
+                        Err(_) => "pdc=cancelled".into(),
+                        Ok(x) => format!("pdc={}", data_res(Poll::Ready(x), &mut rhash)),
+                    }
+                })
             }
-            "pd" => {
-                let Some(r) = arecv.as_mut() else { return "bad-op".into() };
-                match tokio::time::timeout(OP_TIMEOUT, poll_fn(|cx| r.poll_data(cx))).await {
-                    Err(_) => "pd=timeout".into(),
-                    Ok(x) => format!("pd={}", data_res(Poll::Ready(x), &mut rhash)),
-                }
-            }
+            "pd" => with_recv!(r => match tokio::time::timeout(OP_TIMEOUT, poll_fn(|cx| r.poll_data(cx))).await {
+                Err(_) => "pd=timeout".into(),
+                Ok(x) => format!("pd={}", data_res(Poll::Ready(x), &mut rhash)),
+            }),
             "rdall" => {
-                let Some(r) = arecv.as_mut() else { return "bad-op".into() };
-                let res = tokio::time::timeout(OP_TIMEOUT, async {
+                let res = with_recv!(r => tokio::time::timeout(OP_TIMEOUT, async {
                     loop {
                         match poll_fn(|cx| r.poll_data(cx)).await {
                             Ok(Some(b)) => rhash.feed(&b),
@@ -573,22 +1032,40 @@ async fn scenario(cfg: Cfg, ops: Vec<String>) -> String {
                         }
                     }
                 })
-                .await;
+                .await);
                 match res {
                     Err(_) => "rdall=timeout".into(),
                     Ok(s) => format!("rdall={}", s),
                 }
             }
             "stop" => {
-                let (Some(r), Some(c)) = (arecv.as_mut(), num(1)) else { return "bad-op".into() };
-                match catch_unwind(AssertUnwindSafe(|| r.stop_sending(c))) {
+                let Some(c) = num(1) else { return "bad-op".into() };
+                with_recv!(r => match catch_unwind(AssertUnwindSafe(|| r.stop_sending(c))) {
                     Ok(()) => "stop".into(),
                     Err(_) => "stop=panic".into(),
-                }
+                })
             }
             "dropr" => {
+                if abidi.is_some() {
+                    return "bad-op".into();
+                }
                 arecv = None;
                 "dropr".into()
+            }
+            "z0" => {
+                use h3::quic::Is0rtt;
+                format!("z0={}", b01(with_recv!(r => r.is_0rtt())))
+            }
+            "zacc" => match zacc {
+                Some(b) => format!("zacc={}", b01(b)),
+                None => return "bad-op".into(),
+            },
+            "split" => {
+                let Some(b) = abidi.take() else { return "bad-op".into() };
+                let (s, r) = b.split();
+                asend = Some(s);
+                arecv = Some(r);
+                "split".into()
             }
             // ---------------- adapter, connection
             "aclose" => {
@@ -598,6 +1075,174 @@ async fn scenario(cfg: Cfg, ops: Vec<String>) -> String {
                 })) {
                     Ok(()) => "aclose".into(),
                     Err(_) => "aclose=panic".into(),
+                }
+            }
+            "oclose" => {
+                // OpenStreams::close(code, reason) through the chosen opener
+                let (Some(c), Some(reason)) = (num(2), p.get(3).and_then(|x| parse_hex(x))) else {
+                    return "bad-op".into();
+                };
+                let r = with_opener!(p.get(1), x => catch_unwind(AssertUnwindSafe(|| {
+                    h3::quic::OpenStreams::<Bytes>::close(&mut *x, h3::error::Code::from(c), &reason)
+                })));
+                match r {
+                    Ok(()) => "oclose".into(),
+                    Err(_) => "oclose=panic".into(),
+                }
+            }
+            "ob1" | "ob" | "ou1" | "ou" => {
+                let once = p[0].ends_with('1');
+                let bi = p[0].starts_with("ob");
+                let tag = p[0];
+                if bi {
+                    let r = with_opener!(p.get(1), x => {
+                        let f = poll_fn(|cx| match h3::quic::OpenStreams::<Bytes>::poll_open_bidi(&mut *x, cx) {
+                            Poll::Pending if once => Poll::Ready(Poll::Pending),
+                            Poll::Pending => Poll::Pending,
+                            r => Poll::Ready(r),
+                        });
+                        tokio::time::timeout(OP_TIMEOUT, f).await
+                    });
+                    match r {
+                        Err(_) => format!("{}=timeout", tag),
+                        Ok(r) => {
+                            let (t, s) = open_res(tag, r, ids_of_bidi);
+                            if let Some(s) = s {
+                                opened.push((Opened::Bi(s), false));
+                            }
+                            t
+                        }
+                    }
+                } else {
+                    let r = with_opener!(p.get(1), x => {
+                        let f = poll_fn(|cx| match h3::quic::OpenStreams::<Bytes>::poll_open_send(&mut *x, cx) {
+                            Poll::Pending if once => Poll::Ready(Poll::Pending),
+                            Poll::Pending => Poll::Pending,
+                            r => Poll::Ready(r),
+                        });
+                        tokio::time::timeout(OP_TIMEOUT, f).await
+                    });
+                    match r {
+                        Err(_) => format!("{}=timeout", tag),
+                        Ok(r) => {
+                            let (t, s) = open_res(tag, r, |s: &ASend| format!("{}", s.send_id().into_inner()));
+                            if let Some(s) = s {
+                                opened.push((Opened::Uni(s), false));
+                            }
+                            t
+                        }
+                    }
+                }
+            }
+            "otag" => {
+                // every stream opened by `ob`/`ou` and not yet used gets one DATA frame (n + j bytes for
+                // the j-th opened stream) and is finished, the bidirectional ones through the UNSPLIT stream
+                let (Some(n), Some(seed)) = (num(1), num(2)) else { return "bad-op".into() };
+                let mut cnt = 0;
+                let mut bad: Option<String> = None;
+                for (j, (st, tagged)) in opened.iter_mut().enumerate() {
+                    if *tagged {
+                        continue;
+                    }
+                    *tagged = true;
+                    let wb = WriteBuf::from(Frame::Data(payload(n as usize + j, seed + j as u64)));
+                    let r = match st {
+                        Opened::Bi(s) => match s.send_data(wb) {
+                            Err(e) => Err(e),
+                            Ok(()) => match tokio::time::timeout(OP_TIMEOUT, poll_fn(|cx| s.poll_ready(cx))).await {
+                                Err(_) => { bad = Some(format!("timeout@{}", j)); break }
+                                Ok(Err(e)) => Err(e),
+                                Ok(Ok(())) => poll_fn(|cx| s.poll_finish(cx)).await,
+                            },
+                        },
+                        Opened::Uni(s) => match s.send_data(wb) {
+                            Err(e) => Err(e),
+                            Ok(()) => match tokio::time::timeout(OP_TIMEOUT, poll_fn(|cx| s.poll_ready(cx))).await {
+                                Err(_) => { bad = Some(format!("timeout@{}", j)); break }
+                                Ok(Err(e)) => Err(e),
+                                Ok(Ok(())) => poll_fn(|cx| s.poll_finish(cx)).await,
+                            },
+                        },
+                    };
+                    match r {
+                        Ok(()) => cnt += 1,
+                        Err(e) => { bad = Some(format!("err:{}@{}", stream_err(&e), j)); break }
+                    }
+                }
+                match bad {
+                    Some(b) => format!("otag={}", b),
+                    None => format!("otag={}", cnt),
+                }
+            }
+            "ab1" | "ab" | "ar1" | "ar" => {
+                let once = p[0].ends_with('1');
+                let tag = p[0];
+                if p[0].starts_with("ab") {
+                    let f = poll_fn(|cx| match h3::quic::Connection::<Bytes>::poll_accept_bidi(&mut a, cx) {
+                        Poll::Pending if once => Poll::Ready(Poll::Pending),
+                        Poll::Pending => Poll::Pending,
+                        r => Poll::Ready(r),
+                    });
+                    match tokio::time::timeout(OP_TIMEOUT, f).await {
+                        Err(_) => format!("{}=timeout", tag),
+                        Ok(Poll::Pending) => format!("{}=pending", tag),
+                        Ok(Poll::Ready(Err(e))) => format!("{}=err:{}", tag, conn_err(&e)),
+                        Ok(Poll::Ready(Ok(b))) => {
+                            let t = format!("{}={}", tag, ids_of_bidi(&b));
+                            taken.push(Box::new(b));
+                            t
+                        }
+                    }
+                } else {
+                    let f = poll_fn(|cx| match h3::quic::Connection::<Bytes>::poll_accept_recv(&mut a, cx) {
+                        Poll::Pending if once => Poll::Ready(Poll::Pending),
+                        Poll::Pending => Poll::Pending,
+                        r => Poll::Ready(r),
+                    });
+                    match tokio::time::timeout(OP_TIMEOUT, f).await {
+                        Err(_) => format!("{}=timeout", tag),
+                        Ok(Poll::Pending) => format!("{}=pending", tag),
+                        Ok(Poll::Ready(Err(e))) => format!("{}=err:{}", tag, conn_err(&e)),
+                        Ok(Poll::Ready(Ok(r))) => {
+                            let t = format!("{}={}", tag, r.recv_id().into_inner());
+                            taken.push(Box::new(r));
+                            t
+                        }
+                    }
+                }
+            }
+            // ---------------- adapter, datagrams (`h3_quinn::datagram`)
+            "dgs" => {
+                // send_datagram(Datagram::new(stream id, n payload bytes).encode())
+                let (Some(sid), Some(n), Some(seed)) = (num(1), num(2), num(3)) else { return "bad-op".into() };
+                if sid % 4 != 0 {
+                    return "bad-op".into();
+                }
+                let Ok(sid) = h3::quic::StreamId::try_from(sid) else { return "bad-op".into() };
+                let h = dsend.get_or_insert_with(|| DatagramConnectionExt::<Bytes>::send_datagram_handler(&a));
+                let d = h3_datagram::datagram::Datagram::new(sid, payload(n as usize, seed)).encode();
+                match h.send_datagram(d) {
+                    Ok(()) => "dgs=ok".into(),
+                    Err(e) => format!("dgs={}", dgram_err(&e)),
+                }
+            }
+            "dgr1" | "dgr" => {
+                let once = p[0] == "dgr1";
+                let h = drecv.get_or_insert_with(|| DatagramConnectionExt::<Bytes>::recv_datagram_handler(&a));
+                let f = poll_fn(|cx| match h.poll_incoming_datagram(cx) {
+                    Poll::Pending if once => Poll::Ready(None),
+                    Poll::Pending => Poll::Pending,
+                    Poll::Ready(r) => Poll::Ready(Some(r)),
+                });
+                match tokio::time::timeout(OP_TIMEOUT, f).await {
+                    Err(_) => format!("{}=timeout", p[0]),
+                    Ok(None) => format!("{}=pending", p[0]),
+                    Ok(Some(Err(e))) => format!("{}=err:{}", p[0], conn_err(&e)),
+                    Ok(Some(Ok(b))) => {
+                        let mut h = Hash::new();
+                        h.feed(&b);
+                        format!("{}={}", p[0], h.show())
+                    }
                 }
             }
             // ---------------- raw peer
@@ -649,14 +1294,150 @@ async fn scenario(cfg: Cfg, ops: Vec<String>) -> String {
                 }
             }
             "pclose" => {
-                let Some(c) = num(1) else { return "bad-op".into() };
-                peer.conn.close(VarInt::from_u64(c).unwrap(), b"");
+                let (Some(c), Some(pc)) = (num(1), peer.conn.as_ref()) else { return "bad-op".into() };
+                pc.close(VarInt::from_u64(c).unwrap(), b"");
                 "pclose".into()
             }
-            "pclosed" => match tokio::time::timeout(OP_TIMEOUT, peer.conn.closed()).await {
-                Ok(e) => format!("pclosed={}", raw_conn_err(&e)),
-                Err(_) => "pclosed=timeout".into(),
-            },
+            "pclosed" | "pclosedr" => {
+                let Some(pc) = peer.conn.as_ref() else { return "bad-op".into() };
+                match tokio::time::timeout(OP_TIMEOUT, pc.closed()).await {
+                    Ok(quinn::ConnectionError::ApplicationClosed(ac)) if p[0] == "pclosedr" => {
+                        format!("pclosedr=app:{}:{}", ac.error_code.into_inner(), to_hex(&ac.reason))
+                    }
+                    Ok(e) => format!("{}={}", p[0], raw_conn_err(&e)),
+                    Err(_) => format!("{}=timeout", p[0]),
+                }
+            }
+            "pmb" | "pmu" => {
+                // the peer raises (sets) the number of streams the adapter side may have open
+                let (Some(n), Some(pc)) = (num(1), peer.conn.as_ref()) else { return "bad-op".into() };
+                let Ok(n) = VarInt::from_u64(n) else { return "bad-op".into() };
+                if p[0] == "pmb" {
+                    pc.set_max_concurrent_bi_streams(n);
+                } else {
+                    pc.set_max_concurrent_uni_streams(n);
+                }
+                p[0].into()
+            }
+            "pob" | "pou" => {
+                // the peer opens one more stream and announces it with one byte
+                let Some(pc) = peer.conn.clone() else { return "bad-op".into() };
+                let bi = p[0] == "pob";
+                let r = tokio::time::timeout(OP_TIMEOUT, async {
+                    if bi {
+                        let (mut s, r) = pc.open_bi().await.ok()?;
+                        s.write_all(&[0xbb]).await.ok()?;
+                        Some(Box::new((s, r)) as Box<dyn std::any::Any + Send>)
+                    } else {
+                        let mut s = pc.open_uni().await.ok()?;
+                        s.write_all(&[0xbb]).await.ok()?;
+                        Some(Box::new(s) as Box<dyn std::any::Any + Send>)
+                    }
+                })
+                .await;
+                match r {
+                    Ok(Some(x)) => {
+                        pextra.push(x);
+                        p[0].into()
+                    }
+                    Ok(None) => format!("{}=failed", p[0]),
+                    Err(_) => format!("{}=timeout", p[0]),
+                }
+            }
+            "pacc" => {
+                // the peer accepts the next n streams of a kind and reads each to its end
+                let (Some(kind), Some(n), Some(pc)) = (p.get(1), num(2), peer.conn.clone()) else {
+                    return "bad-op".into();
+                };
+                let bi = match *kind { "bi" => true, "uni" => false, _ => return "bad-op".into() };
+                if cfg.open && has_stream && bi == (cfg.kind == Kind::Bi) {
+                    // the stream under test (and those before it) go to the peer's own task first
+                    if let Some(rx) = primary_ready.take() {
+                        if tokio::time::timeout(OP_TIMEOUT, rx).await.is_err() {
+                            return "pacc=timeout-primary".into();
+                        }
+                    }
+                }
+                let r = tokio::time::timeout(OP_TIMEOUT, async {
+                    let mut items: Vec<String> = Vec::new();
+                    for _ in 0..n {
+                        let mut r = if bi {
+                            match pc.accept_bi().await {
+                                Ok((s, r)) => { pextra.push(Box::new(s)); r }
+                                Err(e) => { items.push(format!("lost:{}", raw_conn_err(&e))); break }
+                            }
+                        } else {
+                            match pc.accept_uni().await {
+                                Ok(r) => r,
+                                Err(e) => { items.push(format!("lost:{}", raw_conn_err(&e))); break }
+                            }
+                        };
+                        let id: u64 = r.id().into();
+                        let mut h = Hash::new();
+                        let end = loop {
+                            match r.read_chunk(usize::MAX, true).await {
+                                Ok(Some(c)) => h.feed(&c.bytes),
+                                Ok(None) => break "fin".to_string(),
+                                Err(quinn::ReadError::Reset(c)) => break format!("reset:{}", c.into_inner()),
+                                Err(_) => break "lost".to_string(),
+                            }
+                        };
+                        items.push(format!("{}:{}:{}", id, h.show(), end));
+                    }
+                    items.join(",")
+                })
+                .await;
+                match r {
+                    Ok(s) if s.is_empty() => "pacc=-".into(),
+                    Ok(s) => format!("pacc={}", s),
+                    Err(_) => "pacc=timeout".into(),
+                }
+            }
+            "pdgs" => {
+                let (Some(n), Some(seed), Some(pc)) = (num(1), num(2), peer.conn.as_ref()) else { return "bad-op".into() };
+                match pc.send_datagram(payload(n as usize, seed)) {
+                    Ok(()) => "pdgs".into(),
+                    Err(_) => "pdgs=failed".into(),
+                }
+            }
+            "pdg" => {
+                let Some(pc) = peer.conn.as_ref() else { return "bad-op".into() };
+                match tokio::time::timeout(OP_TIMEOUT, pc.read_datagram()).await {
+                    Err(_) => "pdg=timeout".into(),
+                    Ok(Err(e)) => format!("pdg=lost:{}", raw_conn_err(&e)),
+                    Ok(Ok(b)) => {
+                        let mut h = Hash::new();
+                        h.feed(&b);
+                        format!("pdg={}", h.show())
+                    }
+                }
+            }
+            "pkill" => {
+                // the peer's endpoint vanishes without a word; whoever answers at its address from now on
+                // knows nothing of the connection (but shares the reset key)
+                let Some(k) = killer.take() else { return "bad-op".into() };
+                let _ = k.kill.send(());
+                let _ = tokio::time::timeout(OP_TIMEOUT, k.dead).await;
+                for h in ptasks.lock().unwrap().drain(..) {
+                    h.abort();
+                }
+                peer.conn = None;
+                peer.result = None;
+                pextra.clear();
+                tokio::time::sleep(Duration::from_millis(5)).await;
+                let mut ok = false;
+                for _ in 0..400 {
+                    if let Ok(sock) = std::net::UdpSocket::bind(k.addr) {
+                        if let Ok(ep) = quinn::Endpoint::new(kill_endpoint_config(), None, sock, Arc::new(quinn::TokioRuntime)) {
+                            eps.push(ep);
+                            ok = true;
+                        }
+                        break;
+                    }
+                    tokio::time::sleep(Duration::from_millis(5)).await;
+                }
+                if ok { "pkill".into() } else { "pkill=failed".into() }
+            }
             "settle" => {
                 tokio::time::sleep(Duration::from_millis(num(1).unwrap_or(20))).await;
                 "settle".into()
@@ -665,17 +1446,19 @@ async fn scenario(cfg: Cfg, ops: Vec<String>) -> String {
         };
         out.push(tok);
     }
-    drop((asend, arecv, skipped));
+    drop((abidi, asend, arecv, skipped, opened, taken, o_opener, k_opener, dsend, drecv));
     drop(a);
-    cep.close(VarInt::from_u32(0), b"");
-    sep.close(VarInt::from_u32(0), b"");
+    for ep in &eps {
+        ep.close(VarInt::from_u32(0), b"");
+    }
+    if let Some(k) = killer.take() {
+        let _ = k.kill.send(());
+    }
     out.join(" ")
 }
 
-pub fn handle(w: &[&str]) -> String {
-    if w.len() < 2 || w[0] != "quinn" {
-        return "bad-op".into();
-    }
+/// one attempt
+fn attempt(w: &[&str]) -> String {
     let Some(cfg) = parse_cfg(w[1]) else { return "bad-op".into() };
     let ops: Vec<String> = w[2..].iter().map(|s| s.to_string()).collect();
     guarded(|| {
@@ -689,4 +1472,24 @@ pub fn handle(w: &[&str]) -> String {
         rt.shutdown_timeout(Duration::from_millis(100));
         r
     })
+}
+
+/// A result that contains a timeout may be the machine's doing (other builds load it): the case is run
+/// a second time and the second result stands, marked ` #retry` (the check strips and counts the mark).
+pub fn handle(w: &[&str]) -> String {
+    if w.len() < 2 || w[0] != "quinn" {
+        return "bad-op".into();
+    }
+    let r = attempt(w);
+    let suspicious = r == "setup-failed" || r.split(' ').any(|t| t == "timeout" || t.contains("=timeout"));
+    if !suspicious {
+        return r;
+    }
+    // a loaded machine produces a handful of these, a broken adapter hundreds: do not double the
+    // duration of a run that fails anyway
+    static RETRIES: std::sync::atomic::AtomicUsize = std::sync::atomic::AtomicUsize::new(0);
+    if RETRIES.fetch_add(1, std::sync::atomic::Ordering::Relaxed) >= 24 {
+        return r;
+    }
+    format!("{} #retry", attempt(w))
 }
